@@ -149,12 +149,22 @@ def _update_paths(ctx, R, u, guards, lookups, mine, parent, puuid):
         if isinstance(t, ast.Compare) and len(t.ops) == 1 and isinstance(
                 t.ops[0], ast.In) and src(t.left) == puuid:
             coll = resolve(u, t.comparators[0])
-            # {rp.uuid for rp in <subtree>}
+            # {rp.uuid for rp in <subtree>} - as a comprehension, or built
+            # by a loop that adds every member's uuid (builder view)
+            it = None
             if isinstance(coll, (ast.SetComp, ast.ListComp,
                                  ast.GeneratorExp)) and src(
                     coll.elt).endswith('.uuid') and not \
                     coll.generators[0].ifs:
                 it = coll.generators[0].iter
+            elif isinstance(t.comparators[0], ast.Name):
+                bv = C.builder_view(u, t.comparators[0].id)
+                if bv is not None and len(bv['gens']) == 1 and not \
+                        bv['conds'] and not isinstance(
+                            bv['elem'], tuple) and src(
+                                bv['elem']).endswith('.uuid'):
+                    it = bv['gens'][0][1]
+            if it is not None:
                 subs = [it]
                 if isinstance(it, ast.Name):
                     # definitions of the iterated name reaching the
